@@ -198,6 +198,19 @@ def gapfill(sched, conv):
     return False
 
 
+def snapshot_after_close(sched, conv):
+    """Both FINs of this TCP conversation were captured before a bulk block (= before the snapshot the importer
+    takes there) and a packet of it (the last ACK, a duplicate) after the block."""
+    w = sched["wire"]
+    for b, p in enumerate(w):
+        if p["k"] != "bulk":
+            continue
+        before = {q["k"] for q in w[:b] if q["c"] == conv and not q["dup"]}
+        if {"fin", "finack"} <= before and any(q["c"] == conv for q in w[b + 1:]):
+            return True
+    return False
+
+
 def pert_name(f):
     return "+".join(n for n in ("dup", "swap") if f[n]) or "plain"
 
@@ -228,6 +241,8 @@ def report_c05(ctx, rows, fails):
         ft = conv_features(h["sched"], h["conc"], f["conv"])
         if gapfill(h["sched"], f["conv"]):
             key = "C05.Visible:%s:gapfill" % ft["proto"]
+        elif snapshot_after_close(h["sched"], f["conv"]) and f["fail"] in ("twice", "endpoints", "payload-c", "payload-s", "runs"):
+            key = "C05.Visible:tcp:snapshot-after-close"
         elif ft["wrap"] and (ft["dup"] or ft["swap"]) and f["fail"] in ("payload-c", "payload-s", "runs"):
             key = "C05.Visible:tcp:seqwrap"
         else:
@@ -261,6 +276,8 @@ def report_c08(ctx, rows, fails):
             convs = {v["conv"] for v in prev["vis"] if v["id"] == f["got"]}
         if convs and any(gapfill(h["sched"], c) for c in convs):
             quals = ["gapfill"]
+        elif convs and row.get("snapUsed") and all(snapshot_after_close(h["sched"], c) for c in convs):
+            quals = ["snapshot-after-close"]
         elif f["fail"] == "SetDetermined":
             fts = [conv_features(h["sched"], h["conc"], c) for c in convs]
             if fts and all(t["wrap"] and (t["dup"] or t["swap"]) for t in fts):
@@ -436,7 +453,7 @@ def run_c05(ctx):
     picked = exhaustive if len(exhaustive) <= n_ex else rng.sample(exhaustive, n_ex)
     # (A) seeded simulation beyond
     base = ctx.seed * 100
-    plan = ([("fast", 40, 2), ("slow", 30, 2), ("deep", 30, 1), ("bulk", 4, 2), ("bulkany", 2, 1)] if quick else
+    plan = ([("fast", 40, 2), ("slow", 30, 2), ("deep", 30, 1), ("bulk", 5, 2), ("bulkany", 2, 1)] if quick else
             [("fast", 200, 8), ("slow", 120, 6), ("deep", 120, 6), ("bulk", 6, 6), ("bulkany", 5, 4), ("bulk2", 3, 3)])
     sims = []
     for i, (regime, num, nseeds) in enumerate(plan):
@@ -570,7 +587,7 @@ def run_c08(ctx):
             scheds.append(s)
     # plus snapshot vectors with chronological imports (shared with C05)
     extra = []
-    for i, (regime, num, nseeds) in enumerate([("bulk", 3, 2)] if quick else [("bulk", 6, 3), ("bulk2", 3, 2), ("bulkany", 4, 2)]):
+    for i, (regime, num, nseeds) in enumerate([("bulk", 4, 2)] if quick else [("bulk", 6, 3), ("bulk2", 3, 2), ("bulkany", 4, 2)]):
         extra += generate(ctx, regime, num, 500, [base + 40 + 10 * i + j for j in range(nseeds)])
     scheds = number(scheds + extra)
     _lap(ctx, "tlc_simulate")
